@@ -115,7 +115,10 @@ def prepare_scratch(modules, need_ref=False):
     lp = os.path.join(dst, "src", "lib.rs")
     lt = open(lp).read()
     if CATCH_UNWIND_FROM in lt:
-        open(lp, "w").write(lt.replace(CATCH_UNWIND_FROM, CATCH_UNWIND_TO, 1))
+        lt = lt.replace(CATCH_UNWIND_FROM, CATCH_UNWIND_TO, 1)
+    # scratch-only, cfg(kani)-only: lets a harness stub name `Vec<T, A: Allocator>` (stub_vec_push_split in common.rs)
+    lt = "#![cfg_attr(kani, feature(allocator_api))]\n" + lt
+    open(lp, "w").write(lt)
     # dependency shims ([patch.crates-io]) — crc32fast uses inline asm, zstd is FFI
     shims = os.path.join(VERIF, "shims")
     patch = "\n[patch.crates-io]\n"
@@ -261,10 +264,12 @@ def resolve_unwindset(goto, spec, logpath):
     return sel, sorted(unmatched), len(loops)
 
 
-def run_harness(h, base_t, dst, scratch, envadd, playback=False):
+def run_harness(h, base_t, dst, scratch, envadd, playback=False, scale=1.0, sliced_playback=False):
     name = h["name"]
     t0 = time.time()
     tdir = os.path.join(scratch, "t_" + name)
+    if scale != 1.0:
+        shutil.rmtree(tdir, ignore_errors=True)
     logd = os.path.join(scratch, "logs")
     os.makedirs(logd, exist_ok=True)
     sh(["cp", "-a", base_t, tdir])
@@ -306,9 +311,17 @@ def run_harness(h, base_t, dst, scratch, envadd, playback=False):
             # concrete playback must come before --cbmc-args
             i = cmd.index("--cbmc-args") if "--cbmc-args" in cmd else len(cmd)
             cmd[i:i] = ["-Z", "concrete-playback", "--concrete-playback=print"]
-        logpath = os.path.join(logd, name + (".playback" if playback else "") + ".log")
-        rc, out, to = run_limited(cmd, dst, env, logpath, h.get("timeout", 300) * (3 if playback else 1),
-                                  h.get("mem_gb", 8) * (2 if playback else 1))
+            if sliced_playback:
+                # Kani switches formula slicing off for playback, which some harnesses cannot afford (k03g: > 40 GB).
+                # With slicing back on, values the failing check does not depend on may be missing from the trace; the
+                # playback runtime then stops with "Not enough det vals" (filtered as an artefact) - and a native failure
+                # is only counted if it carries the failing check's own message (see do_check).
+                if "--cbmc-args" not in cmd:
+                    cmd += ["--cbmc-args"]
+                cmd += ["--slice-formula"]
+        logpath = os.path.join(logd, name + ((".playback_sliced" if sliced_playback else ".playback") if playback else "") + ".log")
+        rc, out, to = run_limited(cmd, dst, env, logpath, h.get("timeout", 300) * (3 if playback else 1) * (2 if scale != 1.0 else 1),
+                                  min(48, h.get("mem_gb", 8) * (2 if playback else 1) * scale))
         res["log"] = logpath
         pr = parse_kani(out)
         res.update(pr)
@@ -375,7 +388,7 @@ def match_known(known, prop, hname, fail):
 PLAYBACK_RE = re.compile(r"Concrete playback unit test for `[^`]*`:\n```\n(.*?)\n```", re.S)
 
 
-def replay_native(tests, module, scratch, tag):
+def replay_native(tests, module, scratch, tag, envadd=None, descs=None):
     """Run the generated concrete-playback unit tests natively (`cargo kani playback`: an ordinary
     `cargo test` build of the scratch copy with cfg(kani) and kani::any() fed from the solver's
     assignment).  Stubs are NOT active natively: the real add_context/format/From<io::Error> run.
@@ -399,6 +412,7 @@ def replay_native(tests, module, scratch, tag):
     results = {n: {} for n in names}
     for prof in ("dev", "release_like"):
         env = dict(ENV)
+        env.update(envadd or {"VERIF_GEN": os.path.join(scratch, "gen")})
         if prof == "release_like":
             env.update({"CARGO_PROFILE_DEV_OPT_LEVEL": "3", "CARGO_PROFILE_DEV_DEBUG_ASSERTIONS": "false",
                         "CARGO_PROFILE_DEV_OVERFLOW_CHECKS": "false"})
@@ -413,7 +427,11 @@ def replay_native(tests, module, scratch, tag):
             line = re.search(r"^test \S*%s \.\.\. (ok|FAILED)" % re.escape(n), out, re.M)
             started = re.search(r"^running 1 test", out, re.M) is not None
             aborted = started and line is None and re.search(r"\(signal: \d+|process didn't exit successfully", out) is not None
-            results[n][prof] = {"rc": rc, "failed": bool((line and line.group(1) == "FAILED") or aborted),
+            # a native failure raised by the playback runtime itself (values missing / left over / of the wrong size, or
+            # an assumption of the harness not holding for the replayed values) is a replay artefact, not a reproduction
+            artefact = re.search(r"Not enough det vals found|bytes in the following det vals vec|concrete values left over|kani::assume should always hold", out) is not None
+            msg = any(d.strip('"') and d.strip('"') in out for d in (descs or []))
+            results[n][prof] = {"rc": rc, "failed": bool(((line and line.group(1) == "FAILED") or aborted) and not artefact), "artefact": artefact, "msg_match": msg,
                                 "ran": bool(line) or aborted, "aborted": bool(aborted), "tail": out[-1200:]}
     shutil.rmtree(os.path.join(rdir, "target"), ignore_errors=True)
     return results, names
@@ -569,6 +587,22 @@ def do_check(prop, tier, only, jobs):
                 log("  %-34s %-12s checks=%-5s covers=%s/%s vars=%-8s solver=%ss wall=%ss" % (
                     h["name"], r["status"], r.get("checks", "-"), r.get("covers_sat", "-"), r.get("covers_total", "-"),
                     r.get("vars", "-"), r.get("solver_s", "-"), r.get("wall_s", "-")))
+        # resource exhaustion is not a verdict: a harness that hit its memory cap or its wall cap while the machine was
+        # shared with others is run once more on its own with 2.5x the memory (<= 48 GB) and twice the time
+        retry = [(h, r) for h, r in results if r["status"] in ("OOM", "TIMEOUT")]
+        if retry and not os.environ.get("VERIF_NO_RETRY"):
+            results = [(h, r) for h, r in results if r["status"] not in ("OOM", "TIMEOUT")]
+            for h, r0 in retry:
+                log("  retrying %s alone (was %s)" % (h["name"], r0["status"]))
+                try:
+                    r = run_harness(h, base_t, dst, scratch, envadd, scale=2.5)
+                except Exception as e:  # noqa
+                    r = {"name": h["name"], "status": "ERROR", "detail": repr(e)}
+                r["retried_after"] = r0["status"]
+                results.append((h, r))
+                log("  %-34s %-12s checks=%-5s covers=%s/%s vars=%-8s solver=%ss wall=%ss (retry)" % (
+                    h["name"], r["status"], r.get("checks", "-"), r.get("covers_sat", "-"), r.get("covers_total", "-"),
+                    r.get("vars", "-"), r.get("solver_s", "-"), r.get("wall_s", "-")))
         results.sort(key=lambda x: x[0]["name"])
         known = load_known()
         violations = 0
@@ -606,6 +640,12 @@ def do_check(prop, tier, only, jobs):
                 continue
             rp = run_harness(h, base_t, dst, scratch, envadd, playback=True)
             tests = PLAYBACK_RE.findall(rp.get("playback_out", ""))
+            sliced = False
+            if not tests and rp.get("status") in ("OOM", "TIMEOUT"):
+                log("  playback of %s without formula slicing ended %s; trying with slicing" % (h["name"], rp.get("status")))
+                rp = run_harness(h, base_t, dst, scratch, envadd, playback=True, sliced_playback=True)
+                tests = PLAYBACK_RE.findall(rp.get("playback_out", ""))
+                sliced = True
             os.makedirs(REPLAY_DIR, exist_ok=True)
             rpath = os.path.join(REPLAY_DIR, "%s_%s.json" % (prop, h["name"]))
             reproduced = False
@@ -614,15 +654,18 @@ def do_check(prop, tier, only, jobs):
             tests = [t for t in tests if "Check for `cover`" not in t][:4]
             if tests:
                 try:
-                    nat, names = replay_native(tests, h["module"], scratch, h["name"])
+                    nat, names = replay_native(tests, h["module"], scratch, h["name"], envadd, [fl["desc"] for fl in new])
                 except Exception as e:  # noqa
                     nat, names = {"error": repr(e)}, []
                 for t, n in zip(tests, names):
                     rec["tests"].append({"test_src": t, "test_name": n, "native": nat.get(n)})
-                    if any(v.get("failed") for v in nat.get(n, {}).values()):
+                    if any(v.get("failed") and (v.get("msg_match") or not sliced) for v in nat.get(n, {}).values()):
                         reproduced = True
+                    if nat.get(n) and not any(v.get("ran") for v in nat.get(n, {}).values()):
+                        log("REPLAY-DID-NOT-RUN harness=%s test=%s (native build or run of the generated test failed; see %s)" % (h["name"], n, rpath))
             # failures that are Kani-level only (pointer/UB checks) cannot be confirmed natively
             rec["reproduced_natively"] = reproduced
+            rec["sliced_playback"] = sliced
             json.dump(rec, open(rpath, "w"), indent=1)
             if reproduced:
                 violations += 1
@@ -653,12 +696,15 @@ def do_replay(path):
     scratch, dst, digest = prepare_scratch(modules)
     try:
         bad = False
-        nat, names = replay_native([t["test_src"] for t in rec["tests"]], rec["module"], scratch, "r")
+        norun = False
+        envadd = run_generators(scratch, dst)
+        nat, names = replay_native([t["test_src"] for t in rec["tests"]], rec["module"], scratch, "r", envadd)
         for n in names:
             for prof, v in nat[n].items():
-                log("replay %s [%s]: %s" % (n, prof, "FAILS (violation reproduced)" if v["failed"] else "passes"))
+                log("replay %s [%s]: %s" % (n, prof, "FAILS (violation reproduced)" if v["failed"] else ("passes" if v["ran"] else "DID NOT RUN (native build failed): " + v["tail"][-400:])))
                 bad = bad or v["failed"]
-        return 1 if bad else 0
+                norun = norun or not v["ran"]
+        return 1 if bad else (2 if norun else 0)
     finally:
         shutil.rmtree(scratch, ignore_errors=True)
 
